@@ -13,7 +13,8 @@ TECHNIQUE = ("bounded symbolic execution of static_file (CrossHair+z3) on a full
 LEVEL_TEXT = ("For each enumerated spelling of the root (absolute/relative, with/without trailing separator, with dot and "
               "dot-dot segments, nested) the real static_file is executed on EVERY requested name up to the stated length "
               "(any code point: dots, slashes, backslashes, the names of the decoys) and, beyond that length, on names of "
-              "enumerated shapes (3-4 symbolic segments of fixed lengths joined by '/' or '//'). z3 decides every branch, so inside the bound: "
+              "enumerated shapes (3-4 symbolic segments of fixed lengths joined by '/' or '//'); for relative roots also as "
+              "the second of two calls between which the working directory changed. z3 decides every branch, so inside the bound: "
               "each file handed to open() or described by a non-403/404 response is a regular file strictly below the "
               "root, and every name whose lexical location is outside the root is answered 403 or 404.")
 LEVEL_NOTE = ("Trusted: z3, CrossHair's str model, FakeFS (validated against the real file system on ~10^4 paths) and "
@@ -23,20 +24,24 @@ FUNCTIONS = ["ombott.static_stream:static_file"]
 STUBS = [
     "FakeFS for os.path.exists/isfile, os.access, os.stat, os.getcwd and open as seen from ombott.static_stream "
     "(POSIX resolution over a fixed tree, no symlinks; records open/stat)",
+    "keep_caches: functools.lru_cache'd functions of ombott called with concrete arguments use their real cache under "
+    "the tracer (CrossHair's default skips every lru_cache, which hides state kept between two calls)",
     "py_normpath (pure-Python normpath of CPython 3.10) inside os.path.abspath as seen from ombott.static_stream; "
     "posixpath.abspath/join themselves are the real code",
 ]
 ASSUMPTIONS = [
     "POSIX path semantics (os.sep == '/', backslash is an ordinary character); Windows is not covered",
-    "the tree contains no symbolic links and does not change during the call",
+    "the tree contains no symbolic links and does not change during the call; the working directory changes only "
+    "between calls (family twice)",
     "Range / If-Modified-Since request headers absent (C17); mimetype guessing runs on served names only",
 ]
-OUTSIDE = ["names longer than the stated bound other than the enumerated segment shapes", "roots other than the enumerated "
+OUTSIDE = ["more than two calls / other working-directory changes than the enumerated pairs", "names longer than the stated bound other than the enumerated segment shapes", "roots other than the enumerated "
            "spellings", "symbolic links, Windows separators/drive letters, bytes file names", "trees other than the fixed one"]
 BUDGET_S = {"quick": 300, "thorough": 1150}
 
 # a dict is a directory, n >= 0 a readable regular file of n bytes, n < 0 a file without read permission
-TREE = {"d": {"r": {"f": 3, "u": -2, "sub": {"g": 4}}, "r2": {"s": 5}, "rx": 6, "s": 7}, "s": 8}
+# ('/r' is a second directory that the relative root 'r' names, from the working directory '/': family `twice`)
+TREE = {"d": {"r": {"f": 3, "u": -2, "sub": {"g": 4}}, "r2": {"s": 5}, "rx": 6, "s": 7}, "s": 8, "r": {"f": 9, "t": 1}}
 CWD = "/d"
 
 # (tag, root as given to static_file, canonical location of that root)
@@ -52,6 +57,7 @@ ROOTS = [
     ("rel-up", "../d/./r//", ("d", "r")),
 ]
 
+stubs_c16.keep_caches("ombott.")            # lru_cache'd helpers of ombott keep their cache between calls (family twice)
 FS = stubs_c16.Binding(static_stream)      # os / open of static_stream; FS.fs is set afresh by every run
 
 # warm ombott: the request object static_file reads (thread-local slots are created on first use)
@@ -92,14 +98,14 @@ def check_calls(fs, root):
     return None
 
 
-def check_response(fs, root, name, res):
-    """the property, given what the call did (fs.opened, fs.statted) and answered (res)"""
+def check_response(fs, root, name, res, tag=""):
+    """the property, given what the call did (fs.opened, fs.statted) and answered (res); tag prefixes the cover labels"""
     bad = check_calls(fs, root)
     if bad:
         return bad
     status = res.status_code
     if status == 403 or status == 404:
-        cover("refused-%d" % status)        # always an allowed answer: nothing else to decide
+        cover("%srefused-%d" % (tag, status))        # always an allowed answer: nothing else to decide
         return None
     # a file is being served (HEAD: headers only): what is described must be a regular file in the root ...
     for asked, node in fs.statted:
@@ -114,19 +120,21 @@ def check_response(fs, root, name, res):
         inside = strictly_below(lexical_location((), name), root)
     if not inside:
         return "name %r lies outside the root, answered %r" % (name, status)
-    cover("served-head" if res.body == "" else "served-open")
+    cover(tag + ("served-head" if res.body == "" else "served-open"))
     return None
 
 
-def serve(root_spelling, root, name, head):
-    fs = FS.fs = stubs_c16.FakeFS(TREE, CWD)
+def serve(root_spelling, root, name, head, cwd=CWD, tag=""):
+    """one call of static_file with working directory `cwd`, on a fresh file system recorder; `root` is the place
+    that root_spelling names from that working directory"""
+    fs = FS.fs = stubs_c16.FakeFS(TREE, cwd)
     ombott.request.__init__({"REQUEST_METHOD": "HEAD" if head else "GET"})
     try:
         res = static_stream.static_file(name, root_spelling)
     except Exception as e:
         return check_calls(fs, root) or "not answered: static_file raised %s (opened: %s)" % (
             type(e).__name__, [node and node.path for _, node in fs.opened])
-    return check_response(fs, root, name, res)
+    return check_response(fs, root, name, res, tag)
 
 
 # ---------------------------------------------------------------- query makers
@@ -168,6 +176,23 @@ def make_shape(root_spelling, root, seglens, sep):
     return q
 
 
+def make_twice(root_spelling, first, second, nmin, nmax):
+    """Two calls in one process with the same (relative) root string and a different working directory: a harmless
+    concrete request from `first` = (cwd, what the root names there), then every name from `second`.  Each call is
+    judged against what the root names at the time of that call.  Nothing is reset in between or between explored
+    paths: a correct static_file keeps no state, and every path performs the same two calls in the same order."""
+    def q(name: str, head: bool):
+        assume(nmin <= len(name) <= nmax)
+        bad = serve(root_spelling, first[1], "f", False, first[0], "first-")
+        if bad:
+            return "first call (cwd %s, name 'f'): %s" % (first[0], bad)
+        bad = serve(root_spelling, second[1], name, head, second[0])
+        if bad:
+            return "second call (cwd %s after a call with cwd %s): %s" % (second[0], first[0], bad)
+        return None
+    return q
+
+
 ALL_COVER = ["refused-403", "refused-404", "served-open", "served-head"]
 # (first length, last length, split by first character?, CPU timeout); measured CPU s of the slowest root on a loaded
 # machine: 11 / 29 / 94 / 4 pieces <= 70 / 4 pieces <= 210
@@ -206,6 +231,23 @@ def build(tier):
             timeout = 120 if len(seglens) == 3 else 450          # measured <= 41 / <= 145 CPU s
             out.append(Q(qid, make_shape(spelling, root, seglens, sep), bound, timeout=timeout, expect_cover=ALL_COVER,
                          family="shape", config={"root": spelling, "segments": list(seglens), "sep": sep}))
+    # the same relative root string under two working directories (tag, spelling, {cwd: what the root names})
+    twice = [("rel", "r", ("/d", ("d", "r")), ("/", ("r",)))]
+    if T:
+        twice += [("rel-dot-slash", "./r/", ("/d", ("d", "r")), ("/", ("r",))),
+                  ("dot", ".", ("/d/r", ("d", "r")), ("/r", ("r",)))]
+    for tag, spelling, a, b in twice:
+        for first, second in ((a, b), (b, a)):
+            for lo, hi, split, timeout in SLICES[:3 if T else 1]:
+                span = "len%d" % hi if lo == hi else "len%d-%d" % (lo, hi)
+                names = [cwd.strip("/").replace("/", ".") or "top" for cwd in (first[0], second[0])]
+                qid = "twice/%s/%s-then-%s/%s" % (tag, names[0], names[1], span)
+                bound = ("root %r; one call (name 'f') with cwd %s, then cwd %s and every name of %d..%d characters (any "
+                         "code points), GET and HEAD; root = /%s in the second call" % (
+                             spelling, first[0], second[0], lo, hi, "/".join(second[1])))
+                out.append(Q(qid, make_twice(spelling, first, second, lo, hi), bound, timeout=timeout,
+                             expect_cover=ALL_COVER + ["first-served-open"], family="twice",
+                             config={"root": spelling, "cwd": [first[0], second[0]]}))
     return out
 
 
